@@ -3,6 +3,7 @@
 // outcome (ok / reject / throw:<kind>, or trap:<signal|sanitizer>, timeout) is one `prop.parse.*`
 // line; anything but a clean refusal is a property failure with the input as replay.
 #include "common.hh"
+#include <sys/resource.h>
 #include <unistd.h>
 #include <sys/wait.h>
 #include <signal.h>
@@ -20,7 +21,11 @@ static std::string in_child(const Target &f, const std::string &input, unsigned 
 	fflush(stdout); fflush(stderr);
 	pid_t pid = fork();
 	if (pid == 0) {
-		close(pfd[0]); alarm(seconds);
+		close(pfd[0]);
+		// the limit is on CPU time (a loaded machine must not turn a 4 s parse into a "timeout"); the wall-clock
+		// alarm, ten times as long, only catches a child that blocks without computing
+		struct rlimit rl; rl.rlim_cur = seconds; rl.rlim_max = seconds + 5; setrlimit(RLIMIT_CPU, &rl);
+		alarm(seconds * 10);
 		int devnull = open("/dev/null", O_WRONLY); if (devnull >= 0) dup2(devnull, 2);
 		std::string r = guarded([&]() { return f(input); });
 		(void)!write(pfd[1], r.data(), r.size());
@@ -30,7 +35,7 @@ static std::string in_child(const Target &f, const std::string &input, unsigned 
 	std::string r; char b[256]; ssize_t k; while ((k = read(pfd[0], b, sizeof b)) > 0) r.append(b, k);
 	close(pfd[0]);
 	int st = 0; waitpid(pid, &st, 0);
-	if (WIFSIGNALED(st)) return (WTERMSIG(st) == SIGALRM) ? "timeout" : "trap:signal" + std::to_string(WTERMSIG(st));
+	if (WIFSIGNALED(st)) return (WTERMSIG(st) == SIGALRM || WTERMSIG(st) == SIGXCPU || WTERMSIG(st) == SIGKILL) ? "timeout" : "trap:signal" + std::to_string(WTERMSIG(st));
 	if (WIFEXITED(st) && WEXITSTATUS(st) != 0) return "trap:sanitizer-or-abort(exit" + std::to_string(WEXITSTATUS(st)) + ")";
 	if (r.empty()) return "trap:no-result";
 	return r;
